@@ -25,6 +25,9 @@ const (
 	sliceVec
 )
 
+// vecAfterPlan is set by the vectors flavour: engine-monitor check at the end of a plan.
+var vecAfterPlan func(c *Ctx, tag string)
+
 // planSeg is one segment of a merge plan with its model.
 type planSeg struct {
 	seg    segment.Segment
@@ -152,7 +155,7 @@ func runMergePlan(c *Ctx, i int, rng *rand.Rand, class string, slice int) {
 	sharedNames := pick3(rng)
 	sharedTerms := []string{"a", "b", "ab", "zz", "k", ""}
 	for l := 0; l < nLeaves; l++ {
-		o := model.GenOpts{Syn: syn && rng.Intn(4) != 0, Vec: vec, NoBig: true, IDPrefix: fmt.Sprintf("s%d-", l)}
+		o := model.GenOpts{Syn: syn && rng.Intn(4) != 0, Vec: vec, NoBig: true, IDPrefix: fmt.Sprintf("s%d-", l), VecSalt: 1 + i%997}
 		cl := []string{"small", "mid", "deep", "one", "wide"}[rng.Intn(5)]
 		switch class {
 		case "same-nodrops", "same-drops":
@@ -174,7 +177,7 @@ func runMergePlan(c *Ctx, i int, rng *rand.Rand, class string, slice int) {
 			if rng.Intn(2) == 0 {
 				o.Names = nil // different field lists: re-encode path
 			}
-			o.Syn, o.Vec = false, false
+			o.Syn, o.Vec = false, slice == sliceVec // >= 1000 vectors: the merged index is a clustered one
 		case "tall-edge":
 			// cardinalities next to a multiple of 1024, a term missing from the
 			// earlier (small, heavily deleted) input: writer and reader must
@@ -221,6 +224,7 @@ func runMergePlan(c *Ctx, i int, rng *rand.Rand, class string, slice int) {
 		nSteps = 1 + rng.Intn(3)
 	}
 	var steps []step
+	usedAsInput := map[int]bool{}
 	pool := nLeaves
 	for s := 0; s < nSteps; s++ {
 		var st step
@@ -235,7 +239,30 @@ func runMergePlan(c *Ctx, i int, rng *rand.Rand, class string, slice int) {
 			k = pool
 		}
 		perm := rng.Perm(pool)
-		if s > 0 {
+		if slice == sliceVec {
+			// vector ids are unique per (vector, document) and survive merges: a
+			// segment is never merged together with a segment derived from it, so
+			// in vector plans every segment is an input at most once
+			var free []int
+			for _, x := range perm {
+				if !usedAsInput[x] && x != pool-1 {
+					free = append(free, x)
+				}
+			}
+			if s > 0 && !usedAsInput[pool-1] {
+				free = append([]int{pool - 1}, free...)
+			}
+			if len(free) == 0 {
+				break
+			}
+			if k > len(free) {
+				k = len(free)
+			}
+			st.inputs = append(st.inputs, free[:k]...)
+			for _, x := range st.inputs {
+				usedAsInput[x] = true
+			}
+		} else if s > 0 {
 			// chains: always include the previous output
 			st.inputs = append(st.inputs, pool-1)
 			for _, p := range perm {
@@ -314,6 +341,11 @@ func runMergePlan(c *Ctx, i int, rng *rand.Rand, class string, slice int) {
 			if p.path != "" {
 				os.Remove(p.path)
 			}
+		}
+		if vecAfterPlan != nil {
+			// engine monitor: no native index alive / misused once everything is closed
+			vecAfterPlan(c, id)
+			c.End()
 		}
 	}()
 	okBuild := true
